@@ -326,6 +326,141 @@ fn tm_check(c: &TmCase, rec: &mut Rec) -> CaseResult {
 }
 
 // ---------------------------------------------------------------------------------
+// 1b. utm vs butm vs the explicit tmerc / btmerc: every zone, both hemispheres (exhaustive)
+// ---------------------------------------------------------------------------------
+
+#[derive(Clone, Debug, Serialize, Deserialize)]
+struct ZoneCase {
+    /// 0 ..= 61; 1 ..= 60 are the UTM zones, 0 and 61 must be refused by every route
+    zone: u32,
+    south: bool,
+    /// "" = no ellps parameter (default), else a table name
+    ell: String,
+    /// (longitude offset from the central meridian in degrees, |.| <= 3; latitude in degrees)
+    pts: Vec<[F; 2]>,
+}
+
+fn zone_points(seed: u64, idx: u64) -> Vec<[F; 2]> {
+    let mut v = vec![];
+    let dl = [-3.0, -2.2, -1.0, -1e-5, 0.0, 0.7, 1.9, 3.0];
+    let la = [-80.0, -45.0, -0.5, 0.0, 33.0, 55.0, 72.0, 84.0];
+    for k in 0..8 {
+        v.push([F(dl[k]), F(la[(k * 3 + idx as usize) % 8])]);
+        // and a seeded point anywhere in the zone
+        v.push([F(-3.0 + 6.0 * unit_f(seed, idx, 2 * k as u64)), F(-89.0 + 178.0 * unit_f(seed, idx, 2 * k as u64 + 1))]);
+    }
+    v
+}
+
+fn zone_inst(def: &str) -> Result<Result<(Minimal, OpHandle), String>, Failure> {
+    let mut ctx = Minimal::new();
+    match try_op(&mut ctx, def) {
+        Err(p) => fail(format!("panic-instantiate@{}", p.sig()), format!("instantiating '{def}' panics: {} at {}:{}", p.msg, p.file, p.line)),
+        Ok(Err(e)) => Ok(Err(format!("{e:?}"))),
+        Ok(Ok(op)) => Ok(Ok((ctx, op))),
+    }
+}
+
+fn zone_check(c: &ZoneCase, rec: &mut Rec) -> CaseResult {
+    let ellname = if c.ell.is_empty() { "GRS80" } else { &c.ell };
+    let (_, el) = lib_ell(ellname)?;
+    let e = if c.ell.is_empty() { String::new() } else { format!(" ellps={}", c.ell) };
+    let s = if c.south { " south" } else { "" };
+    let lon_0 = 6.0 * c.zone as f64 - 183.0;
+    let y_0 = if c.south { "10000000" } else { "0" };
+    let defs = [
+        format!("utm zone={}{s}{e}", c.zone),
+        format!("butm zone={}{s}{e}", c.zone),
+        format!("tmerc lat_0=0 lon_0={} k_0=0.9996 x_0=500000 y_0={y_0}{e}", num(lon_0)),
+        format!("btmerc lat_0=0 lon_0={} k_0=0.9996 x_0=500000 y_0={y_0}{e}", num(lon_0)),
+    ];
+    let utm = zone_inst(&defs[0])?;
+    let butm = zone_inst(&defs[1])?;
+    let valid = (1..=60).contains(&c.zone);
+    // the two routes must agree on whether the definition exists at all ...
+    vensure!(utm.is_ok() == butm.is_ok(), "routes-disagree-on-validity",
+        "'{}' -> {}, but '{}' -> {}: one route refuses a definition the other accepts",
+        defs[0], utm.as_ref().map(|_| "Ok").unwrap_or_else(|e| e.as_str()), defs[1], butm.as_ref().map(|_| "Ok").unwrap_or_else(|e| e.as_str()));
+    // ... and with the documentation: zones 1..60 exist, 0 and 61 do not
+    if !valid {
+        vensure!(utm.is_err(), "utm-invalid-zone-accepted", "'{}' and '{}' are accepted, zones are 1..60", defs[0], defs[1]);
+        rec.class("zone refused by both (0, 61)");
+        return Ok(());
+    }
+    let (Ok((uctx, uop)), Ok((bctx, bop))) = (utm, butm) else {
+        vfail!("routes-disagree-on-validity", "'{}' and '{}' are both refused, but zone {} exists and the explicit '{}' is the same projection", defs[0], defs[1], c.zone, defs[2]);
+    };
+    let (tctx, top) = match zone_inst(&defs[2])? {
+        Ok(x) => x,
+        Err(e) => vfail!("routes-disagree-on-validity", "'{}' is refused ({e}) but '{}' is accepted", defs[2], defs[0]),
+    };
+    let (xctx, xop) = match zone_inst(&defs[3])? {
+        Ok(x) => x,
+        Err(e) => vfail!("routes-disagree-on-validity", "'{}' is refused ({e}) but '{}' is accepted", defs[3], defs[1]),
+    };
+    let geo: Vec<Coor4D> = c.pts.iter().map(|p| Coor4D([(lon_0 + p[0].0).to_radians(), p[1].0.to_radians(), 0.0, 0.0])).collect();
+    let n = geo.len();
+    let run4 = |fwd: bool, input: &[Coor4D]| -> Result<[(Vec<Coor4D>, usize); 4], Failure> {
+        let mut out: Vec<(Vec<Coor4D>, usize)> = vec![];
+        for (ctx, op, def) in [(&uctx, uop, &defs[0]), (&bctx, bop, &defs[1]), (&tctx, top, &defs[2]), (&xctx, xop, &defs[3])] {
+            let mut d = input.to_vec();
+            let k = run_op(ctx, op, fwd, &mut d, def)?;
+            out.push((d, k));
+        }
+        Ok(out.try_into().map_err(|_| ()).unwrap())
+    };
+    // forward
+    let f = run4(true, &geo)?;
+    for (k, def) in defs.iter().enumerate() {
+        vensure!(f[k].1 == n, "tmerc-btmerc-count", "'{def}' Fwd inside the zone reports {} successes of {n}", f[k].1);
+    }
+    let tol = tm_tol(&el, true);
+    for i in 0..n {
+        let d = (f[0].0[i][0] - f[1].0[i][0]).hypot(f[0].0[i][1] - f[1].0[i][1]) / 0.9996;
+        rec.metric("worst_fwd_m", d);
+        vensure!(d <= tol, "utm-butm-fwd-disagree", "'{}' and '{}' Fwd at (lon, lat) = ({:?}, {:?}) rad: ({:?}, {:?}) vs ({:?}, {:?}), {d:.3e} m apart (> {tol:.3e})",
+            defs[0], defs[1], geo[i][0], geo[i][1], f[0].0[i][0], f[0].0[i][1], f[1].0[i][0], f[1].0[i][1]);
+        // utm is tmerc, butm is btmerc, with the zone's parameters
+        for (a, b) in [(0usize, 2usize), (1, 3)] {
+            let d = (f[a].0[i][0] - f[b].0[i][0]).hypot(f[a].0[i][1] - f[b].0[i][1]);
+            rec.metric("worst_zone_vs_explicit_m", d);
+            vensure!(d <= 1e-9, "utm-vs-explicit-tmerc", "'{}' and '{}' Fwd at (lon, lat) = ({:?}, {:?}) rad: ({:?}, {:?}) vs ({:?}, {:?}), {d:.3e} m apart (same projection, > 1e-9)",
+                defs[a], defs[b], geo[i][0], geo[i][1], f[a].0[i][0], f[a].0[i][1], f[b].0[i][0], f[b].0[i][1]);
+        }
+    }
+    // inverse, from the utm coordinates rounded to 1 mm
+    let prj: Vec<Coor4D> = f[0].0.iter().map(|p| Coor4D([(p[0] * 1000.0).round() / 1000.0, (p[1] * 1000.0).round() / 1000.0, 0.0, 0.0])).collect();
+    let b = run4(false, &prj)?;
+    for (k, def) in defs.iter().enumerate() {
+        vensure!(b[k].1 == n, "tmerc-btmerc-count", "'{def}' Inv inside the zone reports {} successes of {n}", b[k].1);
+    }
+    let tol = tm_tol(&el, false);
+    let ground = |p: &Coor4D, q: &Coor4D| -> f64 {
+        let lat = p[1];
+        (wrap_pi(p[0] - q[0]) * el.n(lat) * lat.cos()).hypot((p[1] - q[1]) * el.m(lat))
+    };
+    for i in 0..n {
+        let d = ground(&b[0].0[i], &b[1].0[i]);
+        rec.metric("worst_inv_m", d);
+        vensure!(d <= tol, "utm-butm-inv-disagree", "'{}' and '{}' Inv at (E, N) = ({:?}, {:?}): ({:?}, {:?}) vs ({:?}, {:?}) rad, {d:.3e} m apart on the ground (> {tol:.3e}; longitudes compared modulo 2 pi)",
+            defs[0], defs[1], prj[i][0], prj[i][1], b[0].0[i][0], b[0].0[i][1], b[1].0[i][0], b[1].0[i][1]);
+        for (x, y) in [(0usize, 2usize), (1, 3)] {
+            let d = ground(&b[x].0[i], &b[y].0[i]);
+            vensure!(d <= 1e-9, "utm-vs-explicit-tmerc", "'{}' and '{}' Inv at (E, N) = ({:?}, {:?}): ({:?}, {:?}) vs ({:?}, {:?}) rad, {d:.3e} m apart (same projection, > 1e-9)",
+                defs[x], defs[y], prj[i][0], prj[i][1], b[x].0[i][0], b[x].0[i][1], b[y].0[i][0], b[y].0[i][1]);
+        }
+    }
+    rec.class(&format!("zone {:02}{}", c.zone, if c.south { " south" } else { "" }));
+    rec.count("comparisons", 6 * n as u64);
+    for p in &c.pts {
+        if p[0].0 != 0.0 && p[1].0 != 0.0 {
+            rec.nontrivial(&("zone", c.zone, c.south, &c.ell, cell(p[0].0), cell(p[1].0)));
+        }
+    }
+    Ok(())
+}
+
+// ---------------------------------------------------------------------------------
 // 2. cart operator vs Ellipsoid::cartesian / geographic
 // ---------------------------------------------------------------------------------
 
@@ -1831,6 +1966,23 @@ fn main() {
         || tm_strategy(false),
         tm_check,
     );
+    {
+        let ellv: Vec<String> = std::iter::once(String::new()).chain(names.iter().cloned()).collect();
+        let ne = ellv.len();
+        let seed = run.seed;
+        run.enumerate(
+            "utm-butm-zones",
+            "zones 0..=61 x north/south x {no ellps, each of 47 ellipsoids}: 'utm' vs 'butm' vs the explicit tmerc / btmerc with lon_0 = 6 zone - 183, k_0 = 0.9996, x_0 = 500000, y_0 = 0 | 1e7, on 16 points of the zone (edges at +-3 deg incl. the antimeridian, central meridian, equator, seeded points); the routes must agree on whether the definition exists (1..60 accepted, 0 and 61 refused by both), utm/butm within the calibrated sub-millimetre tolerance both directions (longitudes modulo 2 pi), zone form vs explicit form within 1e-9 m",
+            62 * 2 * ne,
+            move |i| {
+                let zone = (i % 62) as u32;
+                let south = (i / 62) % 2 == 1;
+                let ell = ellv[(i / 124) % ne].clone();
+                ZoneCase { zone, south, ell, pts: zone_points(seed, i as u64) }
+            },
+            zone_check,
+        );
+    }
     let n = run.scale(8_000, 120_000);
     run.section(
         "tmerc-btmerc-lat_0",
